@@ -928,6 +928,37 @@ def wr1(ctx):
                             loop_var = o[2]['place']['l']
                     if same_k and loop_var is not None and ('l', loop_var) in t:
                         resliced.append(c.point)
+        if not resliced and root and root[0] == 'local':
+            # `let (frame_payload, rest) = payload.split_at(k); payload = rest;`
+            for (p_, kind, data) in b.defs.get(root[1], []):
+                if kind == 'assign' and data['rv']['k'] == 'use' and data['rv']['op']['k'] in ('copy', 'move'):
+                    pl = data['rv']['op']['place']
+                    f0 = [e for e in pl['p'] if e['k'] == 'field']
+                    src = b.single_def(pl['l'])
+                    if f0 and f0[0]['i'] == 0 and src and src[1] == 'call' and re.search(r'::split_at(_mut)?$', src[2].name):
+                        sp = src[2]
+                        base_l = op_local(sp.args[0])
+                        loop_var = None
+                        for o in (b.trace_local(base_l) if base_l is not None else []):
+                            if o[0] == 'rv' and o[2]['k'] == 'ref' and not [e for e in o[2]['place']['p'] if e['k'] != 'deref']:
+                                loop_var = o[2]['place']['l']
+                        # some assignment loop_var = (split result).1 inside the loop
+                        def is_field_of(l, base, idx):
+                            r_ = ref_root(b, l)
+                            if not r_ or r_[0] != 'local':
+                                return False
+                            d_ = b.single_def(r_[1])
+                            if d_ and d_[1] == 'assign' and d_[2]['rv']['k'] == 'use' and d_[2]['rv']['op']['k'] in ('copy', 'move'):
+                                q = d_[2]['rv']['op']['place']
+                                return q['l'] == base and [e['i'] for e in q['p'] if e['k'] == 'field'][:1] == [idx]
+                            return False
+                        for (p2, kind2, data2) in b.defs.get(loop_var, []) if loop_var is not None else []:
+                            if kind2 == 'assign' and p2 in inside and data2['rv']['k'] == 'use':
+                                o2 = data2['rv']['op']
+                                if o2['k'] in ('copy', 'move'):
+                                    if (o2['place']['l'] == pl['l'] and [e['i'] for e in o2['place']['p'] if e['k'] == 'field'][:1] == [1]) or \
+                                            (not o2['place']['p'] and is_field_of(o2['place']['l'], pl['l'], 1)):
+                                        resliced.append(p2)
         n += 1
         ok_i = bool(resliced) and hdr not in b.reach_after(hdr, avoid=set(resliced) | set(outside))
         ctx.check(ok_i, '%s:payload-advances' % b.path, where(b, w.point), 'every round re-slices the remaining payload past the frame just written',
